@@ -35,7 +35,7 @@ fn siblings(kind: &str, defs: &str) -> Vec<String> {
 }
 
 fn subjects_inner(rng: &mut Rng) -> (String, String, bool, &'static str) {
-    match rng.below(14) {
+    match rng.below(15) {
         0 => (
             "'shape = Circle[r: 'int] | Rect[w: 'int, h: 'int] | Tri['int, 'int, 'int], area = #'shape { | =Circle[r: r] => [r, r] __integer_multiply__ | =Rect[w: w, h: h] => [w, h] __integer_multiply__ | =Tri[a, b, c] => [a, [b, c] __integer_add__] __integer_add__ }".into(),
             format!("[Circle[r: {}] area, Rect[w: 2, h: {}] area, Tri[1, 2, 3] area]", rng.range(1, 9), rng.range(1, 9)),
@@ -127,6 +127,14 @@ fn subjects_inner(rng: &mut Rng) -> (String, String, bool, &'static str) {
             ),
             false,
             "repl-process-ref",
+        ),
+        12 => (
+            // the entry captures several closures of ONE function literal with different captured
+            // values (and one captured twice): extraction rebuilds each capture as code
+            format!("mk = #'int {{ =n, #'int {{ [~, n] __integer_add__ }} }}, mkb = #'bin {{ =k, #'bin {{ [~, k] __binary_concat__ }} }}, inc = 1 mk, add10 = {} mk, again = 1 mk, ca = 0x41 mkb, cb = 0x{:02x} mkb", rng.range(2, 90), rng.range(0x42, 0xf0)),
+            "[100 inc, 100 add10, 100 again, 0xff ca, 0xff cb]".to_string(),
+            false,
+            "captured-closures-of-one-literal",
         ),
         _ => {
             // the confluent process family of C03
